@@ -33,6 +33,14 @@ type Real interface {
 	Close()
 }
 
+// Hinter may be implemented by a Real whose last Exec resolved a nondeterministic choice of the
+// implementation (Go map iteration order, a random pick).  The hint is appended to the line sent
+// to the twin, which must check that it is admissible and answer for that choice: the comparison
+// is then membership of the real answer in the twin's set of outcomes.
+type Hinter interface {
+	Hint() string
+}
+
 // RealFunc adapts a stateless function.
 type RealFunc func(line string) string
 
@@ -173,7 +181,13 @@ func runCase(p *Prop, o *oracle.O, c Case) outcome {
 		ro := r.Exec(ln)
 		out.real = append(out.real, ro)
 		if o != nil && (p.RealOnly == nil || !p.RealOnly(ln)) {
-			to, err := o.Ask(ln)
+			tl := ln
+			if h, ok := r.(Hinter); ok {
+				if hint := h.Hint(); hint != "" {
+					tl = ln + " " + hint
+				}
+			}
+			to, err := o.Ask(tl)
 			if err != nil {
 				to = "oracle-error " + err.Error()
 			}
